@@ -9,14 +9,15 @@ COQ_TARGETS = limcheck.COQ_TARGETS
 
 def run(ctx):
     if ctx.tier == "quick":
-        rel = [("lattice", ["--stride", 9, "--random", 1500])]
+        rel = [("lattice", ["--stride", 9, "--random", 1500]), ("hist", ["--cases", 60, "--maxlen", 40, "--probes", 1])]
         dbg = [("lattice", ["--stride", 23, "--random", 400])]
     else:
-        rel = [("lattice", ["--stride", 1, "--random", 100000])]
+        rel = [("lattice", ["--stride", 1, "--random", 100000]), ("hist", ["--cases", 3000, "--maxlen", 120, "--probes", 1])]
         dbg = [("lattice", ["--stride", 1, "--random", 100000])]
     rule = ("boundary lattice {0, +-1, 2, 2^31-1..2^31+1, 2^32-1..2^32+1, 2^53-1..2^53+1, floor(2^63/1e9)-1..+1, i64::MAX-1, i64::MAX, i64::MIN}^4 for "
             "(max_burst, count, period, quantity) (19^4 points; quick tier takes a PRNG-offset stride), plus PRNG points, timestamps {epoch, 1 ns, 2023, 2100, 2200}, "
-            "fresh and pre-populated keys, every store type and builder setting, each call under catch_unwind; release profile and debug profile (overflow checks)")
+            "fresh and pre-populated keys, every store type and builder setting, each call under catch_unwind; release profile and debug profile (overflow checks); "
+            "plus in-domain histories whose probes land exactly on refill / retry / expiry instants (no panic, no internal error there either)")
     a = limcheck.run_modes(ctx, "C08", rel, {"C08", "C04"}, rule, profile="release")
     cov_rel = dict(ctx.coverage)
     b = limcheck.run_modes(ctx, "C08d", dbg, {"C08", "C04"}, rule, profile="debug")
